@@ -12,9 +12,11 @@ class IntraClassShuffleWrapper(KDSubset):
         classes = getall_as_tensor(dataset)
         rng = GlobalRng if seed is None else np.random.default_rng(seed=seed)
         # create permutation per class
-        cls_to_perm = []
+        cls_to_perm = {}
         for i in range(num_classes):
-            cls_to_perm.append(rng.permutation((classes == i).nonzero().squeeze(1)))
+            cls_to_perm[i] = rng.permutation((classes == i).nonzero().squeeze(1))
+        # unlabeled samples (-1) are shuffled among themselves (a list index -1 would address the last class)
+        cls_to_perm[-1] = rng.permutation((classes == -1).nonzero().squeeze(1))
         # compose indices
         idx_in_cls = defaultdict(int)
         indices = []
